@@ -4,5 +4,6 @@ CONSTANTS
   TrimAt = 20000000
   DefaultSock = 4096
   AsIs = FALSE
+  Eager = TRUE
 INVARIANT TraceInv
 CHECK_DEADLOCK FALSE
